@@ -216,7 +216,10 @@ def variant_meta(v):
                     # (entries whose type differs between variants)
                     "count": 3 if v % 2 else 3.75,
                     "mixed": [3, 2.5, "text", True][v % 4],
-                    "flag": bool(v % 2), "listy": [1, 2, 3 + v]}
+                    "flag": bool(v % 2), "listy": [1, 2, 3 + v],
+                    # (sequences with a single element stay sequences)
+                    "single": [7 + v], "single weight": [0.75 * (v + 1)],
+                    "single flag": [bool(v % 2)]}
     return meta
 
 
